@@ -535,6 +535,16 @@ def replay_violation(prop, o, cex, detail):
     return {"replay": rpath}
 
 
+def _safe_run(prop, o, tier):
+    """An internal error of the engine is never a verdict: report it as inconclusive."""
+    try:
+        return run_obligation(prop, o, tier)
+    except Exception as e:  # noqa
+        import traceback
+        return {"obligation": o, "verdict": "engine_error", "seconds": 0.0, "solver_queries": 0,
+                "detail": "internal error of the MIR engine (no verdict): " + repr(e)[:200] + " @ " + traceback.format_exc().strip().split("\n")[-3].strip()[:120]}
+
+
 def _worker(args):
     pid, name, tier = args
     import sys
@@ -542,7 +552,7 @@ def _worker(args):
     from vlib import registry
     prop = registry.load(pid)
     o = [x for x in prop["obligations"] if x["name"] == name][0]
-    r = run_obligation(prop, o, tier)
+    r = _safe_run(prop, o, tier)
     r.pop("obligation", None)
     return name, r
 
@@ -564,7 +574,7 @@ def run(prop, obligations, tier, seed):
     out = []
     if n <= 1:
         for o in obligations:
-            out.append(run_obligation(prop, o, tier))
+            out.append(_safe_run(prop, o, tier))
         return out
     with mp.Pool(n) as pool:
         for name, r in pool.imap_unordered(_worker, [(prop["id"], o["name"], tier) for o in obligations]):
